@@ -212,6 +212,28 @@ def run(ctx):
                 ctx.ob("R-COV", ac, "block row on the left, block column on the right", _ax(lft) == ("c", 1) and _ax(rgt) == ("c", 0),
                        "L is the axis=1 concatenation, R the axis=0 concatenation" if _ax(lft) == ("c", 1) and _ax(rgt) == ("c", 0) else
                        f"operand order {show(lft)[:40]} ... {show(rgt)[:40]}", rn)
+    # term-by-term evaluation: the right-hand list already holds B_i^dagger, so a sum over zip(left, right) must multiply by the
+    # list element as it is; applying Dagger again gives sum A_i X B_i
+    if ok_axes:
+        for rn in [n for n in walk_no_nested(ac.node) if isinstance(n, ast.Return) and n.value is not None]:
+            t = Normalizer(m, ac, inline=False)(rn.value)
+            if not (t[0] == "call" and t[1] in ("builtins.sum", "numpy.sum") and t[2] and t[2][0][0] == "comp"):
+                continue
+            comp = t[2][0]
+            elt, gens = comp[2][0], comp[3]
+            it = gens[0][1]
+            if not (elt[0] == "@" and len(elt[1]) == 3 and elt[1][1] == ("n", "mat") and it[0] == "call" and it[1] == "builtins.zip" and len(it[2]) == 2):
+                ctx.ob("R-COV", ac, "term-by-term evaluation is sum_i A_i X (B_i^dagger taken from the right-hand list as it is)", None,
+                       f"`{unparse(rn.value)[:70]}` not recognised", rn, required=False)
+                continue
+            src_l, src_r = it[2]
+            va, vb = gens[0][0][1:] if gens[0][0][0] == "tuple" else (None, None)
+            a_, b_ = elt[1][0], elt[1][2]
+            okterm = src_l == ("n", lname) and src_r == ("n", rname) and a_ == va and b_ == vb
+            ctx.ob("R-COV", ac, "term-by-term evaluation is sum_i A_i X (B_i^dagger taken from the right-hand list as it is)", okterm,
+                   "sum(A @ X @ Bdag for A, Bdag in zip(left, right))" if okterm else
+                   f"term `{show(elt)[:70]}` over zip({show(src_l)}, {show(src_r)}): `{rname}` already holds the conjugate transposes B_i^dagger, so conjugating its element again "
+                   "computes sum_i A_i X B_i (wrong for non-Hermitian right operators; a shape error when input and output dimensions differ)", rn)
     # ---- apply_channel: Choi branch ------------------------------------------------------------
     rs = [r for r in reshape_sites(m, ac) if r["kind"] == "reshape"]
     for r in rs:
@@ -399,6 +421,27 @@ def run(ctx):
         ctx.ob("R-COV", nr, "natural representation term == K (x) conj(K)", None, "tensor(k, conj(k)) not found", required=False)
 
     # ---- channel_dim ------------------------------------------------------------------------------
+    # Choi matrix, dim omitted: the guess is a TABLE whose first row multiplies to the number of rows and whose second row to the number
+    # of columns, [[sqrt r, sqrt r], [sqrt c, sqrt c]]; the 2-vector [sqrt r, sqrt c] is expanded to [[sqrt r, sqrt c], [sqrt r, sqrt c]] and fails the
+    # size test for every r != c
+    dflt = None
+    for n_ in ast.walk(cd.node):
+        if isinstance(n_, ast.If) and unparse(n_.test).replace(" ", "") == "dimisNone":
+            for st in n_.body:
+                if isinstance(st, ast.Assign) and isinstance(st.targets[0], ast.Name) and st.targets[0].id == "dim" and "sqrt" in " ".join(
+                        unparse(d.value) for d in ast.walk(cd.node) if isinstance(d, ast.Assign) and isinstance(d.targets[0], ast.Name) and
+                        d.targets[0].id in {y.id for y in ast.walk(st.value) if isinstance(y, ast.Name)}) + unparse(st.value):
+                    dflt = st
+    if dflt is not None:
+        v = dflt.value
+        tv = unparse(v).replace(" ", "")
+        is_table = (tv.startswith("np.vstack(") and tv.endswith(".T")) or (isinstance(v, ast.Call) and unparse(v.func) in ("np.array", "numpy.array") and v.args and
+                                                                           isinstance(v.args[0], ast.List) and all(isinstance(e, ast.List) for e in v.args[0].elts))
+        is_vector = isinstance(v, (ast.List, ast.Tuple)) and len(v.elts) == 2 and not any(isinstance(e, (ast.List, ast.Tuple)) for e in v.elts)
+        ctx.ob("R-KIND", cd, "Choi matrix, dim omitted: the guessed dims are the table [[sqrt r, sqrt r], [sqrt c, sqrt c]]", True if is_table else False if is_vector else None,
+               f"`{unparse(dflt)[:60]}`" if is_table else
+               f"`{unparse(dflt)[:70]}` is the 2-vector (sqrt r, sqrt c): _expand_dim reads a 2-vector as (input, output) dimension of square spaces, so the table becomes "
+               "[[sqrt r, sqrt c], [sqrt r, sqrt c]] and every r x c Choi matrix with r != c is rejected", dflt, required=is_table or is_vector)
     Nd = Normalizer(m, cd, inline=False)
     # (rows, cols) of a Kraus operator are (out, in)
     n_sh = 0
